@@ -288,17 +288,39 @@ def lifecycle_check(work, hookdir, tag):
     files = sorted(f for f in os.listdir(hookdir) if f.endswith(".ndjson"))
     if not files:
         return None
-    path = work.path("lifecycle-%s.ndjson" % tag)
-    n = 0
-    with open(path, "w") as o:
-        for f in files:
-            with open(os.path.join(hookdir, f)) as i:
-                for line in i:
-                    o.write(line)
-                    n += 1
-            os.remove(os.path.join(hookdir, f))
-    res = trace_check("LifecycleTrace", "LifecycleTrace.cfg", path, work, tag="lc-" + tag, timeout=1800, heap="12g")
-    return {"events": n, "instances": len(files), "viol": res["viol"], "cover": res["cover"], "trace": path, "tlc": res["_tlc"]}
+    # the logs of the gateway processes are independent of each other (each starts with a reset line): they are validated
+    # in chunks of at most ~400 000 events per TLC run
+    chunks, cur, curn = [], [], 0
+    for f in files:
+        with open(os.path.join(hookdir, f)) as i:
+            n = sum(1 for _ in i)
+        if cur and curn + n > 400000:
+            chunks.append(cur)
+            cur, curn = [], 0
+        cur.append(f)
+        curn += n
+    if cur:
+        chunks.append(cur)
+    total, viol, cover, paths, tlcs = 0, [], [], [], []
+    for ci, ch in enumerate(chunks):
+        path = work.path("lifecycle-%s%s.ndjson" % (tag, "" if len(chunks) == 1 else "-%d" % ci))
+        n = 0
+        with open(path, "w") as o:
+            for f in ch:
+                with open(os.path.join(hookdir, f)) as i:
+                    for line in i:
+                        o.write(line)
+                        n += 1
+                os.remove(os.path.join(hookdir, f))
+        res = trace_check("LifecycleTrace", "LifecycleTrace.cfg", path, work, tag="lc-%s-%d" % (tag, ci), timeout=1800, heap="12g")
+        total += n
+        viol += [[v[0], v[1], v[2], v[3], ci] for v in res["viol"]]
+        cover += [c for c in res["cover"] if c not in cover]
+        paths.append(path)
+        tlcs.append(res["_tlc"])
+        if len(chunks) > 1 and not res["viol"]:
+            os.remove(path)
+    return {"events": total, "instances": len(files), "viol": viol, "cover": cover, "trace": paths[0] if paths else None, "traces": paths, "tlc": tlcs[0] if tlcs else None, "chunks": len(chunks)}
 
 
 def lifecycle_violations(pid, work):
@@ -322,9 +344,10 @@ def lifecycle_violations(pid, work):
         confirmed = sorted({sigof(v) for v in mine} & seen2)
         if not confirmed:
             raise HarnessError("lifecycle violations of %s did not reproduce: %s" % (pid, sorted({sigof(v) for v in mine})[:5]))
-        lines = read_ndjson(r["result"]["trace"]) if os.path.exists(r["result"]["trace"]) else []
         for sig in confirmed:
             v = next(x for x in mine if sigof(x) == sig)
+            tp = (r["result"].get("traces") or [r["result"]["trace"]])[v[4] if len(v) > 4 else 0]
+            lines = read_ndjson(tp) if tp and os.path.exists(tp) else []
             ctx = lines[max(0, v[0] - 8):v[0]] if lines else []
             out.append({"signature": sig, "what": "%s does not hold at hook event %s (goroutine role %s): the gateway took a step the Lifecycle specification does not allow" % (v[1], v[2], v[3]),
                         "guard": v[1], "events_before": ctx, "replay": "re-run this check (the driver run %s)" % r["tag"]})
